@@ -2,6 +2,7 @@ pub mod c01;
 pub mod c02;
 pub mod c03;
 pub mod c04;
+pub mod c07;
 pub mod c08;
 
 pub fn dispatch(prop: &str, tier: &str, seed: u64, path: Option<&str>) -> i32 {
@@ -16,6 +17,7 @@ pub fn dispatch(prop: &str, tier: &str, seed: u64, path: Option<&str>) -> i32 {
             "C02" => c02::child(&real_tier, seed, a),
             "C03" => c03::child(&real_tier, seed, a),
             "C04" => c04::child(&real_tier, seed, a),
+            "C07" => c07::child(&real_tier, seed, a),
             _ => return 2,
         }
         return 0;
@@ -26,6 +28,7 @@ pub fn dispatch(prop: &str, tier: &str, seed: u64, path: Option<&str>) -> i32 {
         "C02" => c02::run(tier, seed),
         "C03" => c03::run(tier, seed),
         "C04" => c04::run(tier, seed),
+        "C07" => c07::run(tier, seed),
         _ => {
             eprintln!("unknown property {prop}");
             2
